@@ -52,6 +52,7 @@ def psm_frame(
     colliding_keys=False,
     flag_feature=False,
     crossed_levels=False,
+    targets_first=False,
 ):
     """Build a PSM table.  `mults` = list of spectrum multiplicities (rows per spectrum).
 
@@ -95,6 +96,10 @@ def psm_frame(
     if n >= 2:
         is_target[0] = True
         is_target[1] = False
+    if targets_first:
+        # file layout: all target PSMs listed ahead of the decoys (concatenated search results)
+        o = np.argsort(~is_target, kind="stable")
+        is_target, spec_of_row = is_target[o], spec_of_row[o]
     correct = is_target & (rng.random(n) < pi1)
     f0 = rng.normal(0.0, 1.0, n) + np.where(correct, sep, 0.0)
     f0 = f0 * informative_sign
